@@ -674,11 +674,9 @@ let run_net args lib =
                  | (FUErr _, c2) -> cache := c2; None
                  | (FUOk (co, cid), c2) ->
                    cache := c2;
-                   let ckind = (match get_string co (txt "type") with Present k -> k | _ -> []) in
-                   let ordered = (ckind = txt "OrderedCollection" || ckind = txt "OrderedCollectionPage") in
-                   let plain = (ckind = txt "Collection" || ckind = txt "CollectionPage") in
-                   if not (ordered || plain) then None else
-                   let elems = (match get_list co (txt (if ordered then "orderedItems" else "items")) with Present l -> l | _ -> []) in
+                   (* NewCollectionFromObject: Paging.coll_page (kind check, elements under the key the kind dictates) *)
+                   match coll_page co cid with None -> None | Some pg ->
+                   let elems = List.map fst pg.p_items in
                    let rec firstn k l = if k = 0 then [] else match l with [] -> [] | x :: t -> x :: firstn (k - 1) t in
                    let es = firstn cnt elems in
                    Some (List.map (fun e ->
